@@ -318,6 +318,46 @@ def cyclic_note(ctx):
                          'rule counts after successive expansions: ' + last[0][:160])
 
 
+def extra_type_case(ctx):
+    """Non-asserted triples maps that carry a further rdf:type (any class of another vocabulary), or are typed with the legacy
+    namespace: they are quoted by an asserted map and contribute NO statement of their own — through `materialize_set` and through
+    the command line (each has its own asserted filter)."""
+    import subprocess
+    d = os.path.join(ctx.tmp, 'extratype')
+    os.makedirs(d, exist_ok=True)
+    with open(os.path.join(d, 't.csv'), 'w') as f:
+        f.write('k\nx\ny\n')
+    src = f'rml:logicalSource [ rml:source "{os.path.join(d, "t.csv")}" ; rml:referenceFormulation rml:CSV ]'
+    mp = os.path.join(d, 'm.ttl')
+    with open(mp, 'w') as f:
+        f.write('@prefix rml: <http://w3id.org/rml/> . @prefix ex: <http://ex.org/> .\n'
+                f'ex:A a rml:NonAssertedTriplesMap, ex:Helper ; {src} ; rml:subjectMap [ rml:template "http://ex.org/s/{{k}}" ] ;\n'
+                '  rml:predicateObjectMap [ rml:predicate ex:p ; rml:objectMap [ rml:reference "k" ] ] .\n'
+                f'ex:L a <http://semweb.mmlab.be/ns/rml#NonAssertedTriplesMap> ; {src} ; rml:subjectMap [ rml:template "http://ex.org/l/{{k}}" ] ;\n'
+                '  rml:predicateObjectMap [ rml:predicate ex:p2 ; rml:objectMap [ rml:reference "k" ] ] .\n'
+                f'ex:C a rml:TriplesMap ; {src} ; rml:subjectMap [ rml:quotedTriplesMap ex:A ] ;\n'
+                '  rml:predicateObjectMap [ rml:predicate ex:r ; rml:objectMap [ rml:quotedTriplesMap ex:L ] ] .\n')
+    exp = sorted(f'<< <http://ex.org/s/{k}> <http://ex.org/p> "{k}" >> <http://ex.org/r> << <http://ex.org/l/{k}> <http://ex.org/p2> "{k}" >>'
+                 for k in 'xy')
+    inp = {'kind': 'extra-type'}
+    ctx.case(['extra-type'], nontrivial=True, kind='non-asserted maps with a further rdf:type / legacy namespace')
+    ctx.traces_validated += 1
+    got = cg.run_engine(cg.config_text(mp, fmt='N-TRIPLES', partitioning='PARTIAL-AGGREGATIONS'))
+    if got != ('ok', exp):
+        ctx.violation('non-asserted triples maps (one with a further rdf:type, one typed in the legacy namespace) quoted by an asserted map: '
+                      f'materialize_set gives {str(got)[:300]} instead of the two quoting statements', inp)
+        return
+    out = os.path.join(d, 'out.nt')
+    cp = os.path.join(d, 'config.ini')
+    with open(cp, 'w') as f:
+        f.write(f'[CONFIGURATION]\noutput_format=N-TRIPLES\nnumber_of_processes=1\nlogging_level=CRITICAL\noutput_file={out}\n[DS]\nmappings={mp}\n')
+    env = dict(os.environ, PYTHONPATH=os.path.join(os.environ.get('VERIF_REPO', '/repo'), 'src'))
+    p = subprocess.run([sys.executable, '-m', 'morph_kgc', cp], cwd=d, env=env, stdout=subprocess.PIPE, stderr=subprocess.STDOUT, text=True, timeout=300)
+    lines = sorted(l[:-2] if l.endswith(' .') else l for l in open(out, encoding='utf-8').read().split('\n') if l) if os.path.exists(out) else None
+    if p.returncode != 0 or lines != exp:
+        ctx.violation(f'the same mapping through the command line: exit {p.returncode}, lines {str(lines)[:300]} instead of the two quoting statements', inp)
+
+
 def run(ctx, lean, findings):
     rng = ctx.rng
     drv = ctx.get_driver() if ctx.model_available else None
@@ -326,6 +366,7 @@ def run(ctx, lean, findings):
     install_expand_capture()
     cap = (70 if ctx.tier == 'quick' else 800)
     # fixed documents: every nesting shape, both formats and all modes over the list
+    extra_type_case(ctx)
     crafted = sg.crafted_cases(os.path.join(ctx.tmp, 'crafted'))
     for i, case in enumerate(crafted):
         fmt = FMTS[(i + ctx.seed) % 2]
@@ -388,4 +429,8 @@ def replay_input(ctx, inp, d):
 
 
 def replay(ctx, data):
+    if isinstance(data.get('input'), dict) and data['input'].get('kind') == 'extra-type':
+        before = len(ctx.violations)
+        extra_type_case(ctx)
+        return len(ctx.violations) > before
     return replay_input(ctx, data['input'], os.path.join(ctx.tmp, 'rp'))
